@@ -11,7 +11,8 @@ MANIFEST = dict(
          "requests and configurations: method, path, query, body and every end-to-end header outside the declared set keep their "
          "values (multiplicity and order per key); declared headers take exactly the configured value (last entry of a canonical key "
          "wins, loop idempotent, map order irrelevant without collisions); Host rewritten iff configured; error mapping total; rewrite "
-         "independent of other routes. The model is tied to the code by a differential run of the real HTTPReverseProxy, the real "
+         "independent of other routes; keep-alive on a connection served by a client plugin (refuted with useCompression: recorded "
+         "finding C02:plugin+compression:keepalive-second-request; partial theorem excludes exactly that class). The model is tied to the code by a differential run of the real HTTPReverseProxy, the real "
          "plugins and an in-process frps+frpc against raw-socket users and echoing backends.",
     note="PARTIAL. net/http/httputil.ReverseProxy and net/http.Transport/Server (hop-by-hop removal, query sanitising, framing, "
          "Accept-Encoding: gzip, Date/Content-Type defaults, 304 header suppression) are standard library: described in the model only to "
@@ -43,18 +44,11 @@ def recipe(c: Check):
     st = c.run_driver("sys", q(c.tier, 90, 600), shards=q(c.tier, 6, 16))
     if st and (c.cov.get("coq_counters") or {}).get("sys"):
         cs = c.cov["coq_counters"]["sys"]
-        for name in ("NSYSFWD", "NSYSCHAIN", "NSYSHS2H", "NSYSHS2HS", "NSYSERR504", "NSYSERR404", "NUPGRADE", "NCONNECT"):
+        for name in ("NSYSFWD", "NSYSCHAIN", "NSYSHS2H", "NSYSHS2HS", "NSYSERR504", "NSYSERR404", "NUPGRADE", "NCONNECT", "NKEEPPLAIN", "NKEEPCOMP"):
             if cs.get(name, 0) <= 0:
                 c.broken.append(dict(kind="coverage", name="driver sys never exercised %s" % name, detail=str(cs)))
-    # findings observed by the drivers: reported as KNOWN-FINDING when the lead has listed their key, as notes otherwise
-    listed = {k["key"] for k in c.known_findings() if k["property"] == PID}
-    for drv, dist in (c.cov.get("distribution") or {}).items():
-        for k, v in (dist or {}).items():
-            if k.startswith("finding:") and not k.endswith(":not-reproduced") and v:
-                if k in listed:
-                    c.failures.append(dict(key=k, driver=drv, what=k, case="driver %s observed it %d times" % (drv, v)))
-                else:
-                    c.notes.append("observed (reported to the lead, not listed in KNOWN_FINDINGS): %s x%d" % (k, v))
+    # The recorded finding C02:plugin+compression:keepalive-second-request is emitted by the sys driver itself
+    # (impl_failures, stable key) whenever the replay reproduces it; KNOWN_FINDINGS.txt turns it into KNOWN-FINDING.
     return c.finish(
         rule="http driver: real vhost.HTTPReverseProxy behind a net/http server built as server/service.go does; raw-socket user "
              "(generated methods, percent-encoded paths, raw queries incl. ';', '?' alone and broken escapes, multi-valued / mixed-case / "
